@@ -15,7 +15,7 @@ CHECKS = {
         "the parameter table), and the mixed-radix lemmas are proved by z3 for the model's MAX_PD (symbolic nq, mesh sizes, "
         "pd_start/pd_stop, cutoff, up to 5 nested loops).  Python side: DllKernel._call_kernel chunk loop (invariant over the "
         "100-step chunks), Kernel.Fq/Iq normalisation, scale and background, from the AST of the current tree.",
-   note="[details.make_details (1..4 parameters x loop budget, thorough ..6) and make_kernel_args (1..3 non-magnetic parameters) are proved symbolically: slots, strides, num_eval, layout of the values vector] doubles are reals, int32 mathematical; quick tier proves 7 representative kernels (1-D/2-D, Fq/Iq, oriented symmetric and "
+   note="[when a kernel's text leaves the shape the contract is stated over nothing is proved: the compiled kernel is then compared with the defining sum on the replay meshes (incl. one straddling a validity region over two invocations) and only a reproduced difference is a violation, otherwise undecided] [details.make_details (1..4 parameters x loop budget, thorough ..6) and make_kernel_args (1..3 non-magnetic parameters) are proved symbolically: slots, strides, num_eval, layout of the values vector] doubles are reals, int32 mathematical; quick tier proves 7 representative kernels (1-D/2-D, Fq/Iq, oriented symmetric and "
         "triaxial, MAX_PD 0..5), thorough all compiled models; _Imagnetic kernels and OpenCL/CUDA back ends not under contract; "
         "make_kernel_args/make_details (numpy argsort/cumprod) is a bounded run-time contract over all builtin (model, parameter) "
         "pairs; get_mesh/_pop_par_weights under C10, weights under C02",
@@ -28,7 +28,7 @@ CHECKS = {
         "inside the limits and the support, strictly increasing, on the documented equally spaced grid, every grid point inside "
         "the limits takes part, unnormalised weight = documented density (by congruence on exp/log), normalisation by the sum of "
         "all weights, centre/width resolution (relative vs absolute) and the degenerate case are discharged by z3 for all inputs.",
-   note="reals for floats (finite/NaN-free weights only through the replay grid); numpy axioms linspace/mask selection/elementwise ops; "
+   note="[the relative/absolute flag the interfaces hand to get_weights: checked against the declared type of every call parameter of every builtin model, vector elements included (contracts/tables.py)] reals for floats (finite/NaN-free weights only through the replay grid); numpy axioms linspace/mask selection/elementwise ops; "
         "lemmas sum_lin, sum_pos, exp>0 assumed; lognormal/schulz specified for relative widths and upper limit >= 1e-8 only",
    technique=TECH + "Python AST -> VCs over symbolic-length arrays -> z3 (quantifier-free lemma instances); differential replay grid on get_weights",
    design="DESIGN.md 6 C02"),
@@ -129,7 +129,7 @@ CHECKS = {
         "call_kernel, DataMixin._calc_theory (background added after smearing, 0 for sesans) and bumps create_parameters are "
         "executed symbolically; 'unknown name => TypeError, nothing else raises', 'exactly the parameter's own keys are consumed', "
         "'orientation inactive in 1-D', 'theory = apply(kernel at background 0) + background' and the frames are discharged by z3.",
-   note="[also under contract: SasviewModel.setParam (26 legal/illegal names: exactly the entry is set, unknown or misspelt names raise and leave no stray key), DataMixin._interpret_data (index = limits & mask == 0 & not NaN for every point of a 1-D or 2-D data set of symbolic length, Iq/dIq the selected data, Pinhole2D built on that index), SasviewModel.set_dispersion (only dispersible names accepted; others raise and add no entry) and the Iq/Iqxy convenience functions (q and resolution arguments reach the documented slots of the data object)] weights.get_weights, make_kernel_args, the kernel and resolution.apply replaced by their contracts; bumps Parameter is a "
+   note="[also under contract: SasviewModel.setParam (26 legal/illegal names: exactly the entry is set, unknown or misspelt names raise and leave no stray key), which parameters are dispersible is checked against the declarations in the model files for all builtin tables (contracts/tables.py), DataMixin._interpret_data (index = limits & mask == 0 & not NaN for every point of a 1-D or 2-D data set of symbolic length, Iq/dIq the selected data, Pinhole2D built on that index), SasviewModel.set_dispersion (only dispersible names accepted; others raise and add no entry) and the Iq/Iqxy convenience functions (q and resolution arguments reach the documented slots of the data object)] weights.get_weights, make_kernel_args, the kernel and resolution.apply replaced by their contracts; bumps Parameter is a "
         "stub contract (bumps is not installed); SasviewModel object plumbing and numerical equality of the interfaces end to end "
         "are not under contract (only the shared mesh/theory functions are)",
    technique=TECH + "Python AST -> VCs -> z3 with finite-map inputs; witnesses replayed on get_mesh/_pop_par_weights",
@@ -140,7 +140,7 @@ CHECKS = {
         "C10/C07/C08); (b) functional post-state - after DllKernel._call_kernel every slot of the reused result buffer equals the "
         "full-mesh sum whatever its previous contents (loop invariant over the 100-step chunks, symbolic num_eval), including "
         "the empty mesh, and the arrays Kernel.Fq returns do not alias that buffer.",
-   note="[also under contract: sasview_model.load_custom_model (class built from the current module in all four cache situations), weights.Dispersion.__init__ (class-level defaults unmodified), SasviewModel.clone (no shared mutable table); returned arrays of Kernel.Fq do not alias the reused buffer (with replay)] compiled kernel replaced by its contract (C01); 'bit-identical to a fresh process' (floating point, OS) is not claimed; "
+   note="[bounded run-time frame contract: make_product_info / make_mixture_info leave the parts' ModelInfo and Parameter objects unchanged, every builtin P x S pair] [also under contract: sasview_model.load_custom_model (class built from the current module in all four cache situations), weights.Dispersion.__init__ (class-level defaults unmodified), SasviewModel.clone (no shared mutable table); returned arrays of Kernel.Fq do not alias the reused buffer (with replay)] compiled kernel replaced by its contract (C01); 'bit-identical to a fresh process' (floating point, OS) is not claimed; "
         "SasviewModel class-level caches are not under contract yet",
    technique=TECH + "Python AST -> VCs with loop invariants -> z3; frame and stale-buffer witnesses replayed on real kernels",
    design="DESIGN.md 6 C11"),
